@@ -54,7 +54,13 @@ def check_scale(ctx):
             want = sp.val(spec_src)
         ok = isinstance(scale, Num) and isinstance(want, Num) and scale.r == want.r and \
             ((scale.length is None and want.length is None) or (scale.length is not None and want.length is not None and scale.length == want.length))
-        ctx.check(ok, 'C15.1', f"{tag}: noise standard deviation", f"code:  {show(scale, 300)}\nspec:  {show(want, 300)}", e.loc(), fi.qualname, f"scale:{tag}")
+        from .common import foreign_heads, value_changing_heads
+        fh = foreign_heads(scale, want) if (not ok and isinstance(scale, Val) and isinstance(want, Val)) else []
+        if fh and not value_changing_heads(scale, want):
+            ctx.unknown('C15.1', f"{tag}: noise standard deviation", f"construction not recognised (uses {fh})\ncode:  {show(scale, 300)}\nspec:  {show(want, 300)}",
+                        e.loc(), fi.qualname, f"scale:{tag}")
+        else:
+            ctx.check(ok, 'C15.1', f"{tag}: noise standard deviation", f"code:  {show(scale, 300)}\nspec:  {show(want, 300)}", e.loc(), fi.qualname, f"scale:{tag}")
         ctx.check(loc is None or (isinstance(loc, Num) and loc.is_const() and loc.const() == 0), 'C15.2', f"{tag}: zero-mean noise (loc = 0)", show(loc, 60),
                   e.loc(), fi.qualname, f"loc:{tag}")
         ok_size = isinstance(size, Tup) and len(size.items) == 1 and isinstance(size.items[0], Num) and size.items[0].r == L
